@@ -50,6 +50,7 @@ func FloorToPowerOfTwo(n int) int {
 	n |= n >> 4
 	n |= n >> 8
 	n |= n >> 16
+	n |= n >> (bitSize / 2) // no-op on 32-bit platforms, covers the upper half on 64-bit ones
 
 	return n - (n >> 1)
 }
